@@ -315,16 +315,21 @@ def desugar_binops(text):
     while True:
         toks = rlex.lex(text)
         br = rlex.match_brackets(toks)
-        hit = None
+        hit = None; rend = None
         for i in range(1, len(toks) - 2):
             t = toks[i]
             if t.kind == "punct" and t.text in OPNAMES and toks[i + 1].kind == "punct" and toks[i + 1].text == "&" \
                     and toks[i + 2].kind == "ident" and (toks[i - 1].kind == "ident" or (toks[i - 1].kind == "close" and toks[i - 1].text == ")")):
-                # the right operand must end there (no field/method chain after it)
-                if i + 3 < len(toks) and toks[i + 3].kind == "punct" and toks[i + 3].text in (".", "::"):
+                # the right operand is an identifier or a field path `a.b.c`; it must end there (no method call / index after it)
+                e = i + 2
+                while e + 2 < len(toks) and toks[e + 1].kind == "punct" and toks[e + 1].text == "." and toks[e + 2].kind == "ident" \
+                        and not (e + 3 < len(toks) and toks[e + 3].kind == "open" and toks[e + 3].text == "("):
+                    e += 2
+                if e + 1 < len(toks) and toks[e + 1].kind == "punct" and toks[e + 1].text in (".", "::"):
                     continue
-                if i + 3 < len(toks) and toks[i + 3].kind == "open" and toks[i + 3].text in ("(", "["):
+                if e + 1 < len(toks) and toks[e + 1].kind == "open" and toks[e + 1].text in ("(", "["):
                     continue
+                rend = e
                 hit = i; break
         if hit is None:
             return text, count
@@ -344,8 +349,8 @@ def desugar_binops(text):
                 j -= 2; continue
             break
         left = text[toks[j].start:toks[i - 1].end]
-        new = f"{left}.{OPNAMES[toks[i].text]}(&{toks[i + 2].text})"
-        text = text[:toks[j].start] + new + text[toks[i + 2].end:]
+        new = f"{left}.{OPNAMES[toks[i].text]}(&{text[toks[i + 2].start:toks[rend].end]})"
+        text = text[:toks[j].start] + new + text[toks[rend].end:]
         count += 1
 
 def rewrite_for(src, toks, br, loop, spec_text, idx_name, log, kind_hint=None):
